@@ -57,6 +57,7 @@ SingleLaw == ph = 0 \/
   ( /\ \A s \in V : AlgoSingle(V, E, s) = SpecSingle(V, E)
     /\ SpecSingle(V, E) = (Cardinality(SpecComponents(V, E)) = 1 /\ \A v \in V : Deg(E, v) # 0) )
 RedLaw == ph = 0 \/ ReduceLaw(V, E)
+BranchLaws == ph = 0 \/ \A s \in V : BranchLaw(V, E, s)
 ChainClassLaw == ph = 0 \/ ChainsAreLinkClasses(V, E)
 RedUniqueLaw == ph = 0 \/ Cardinality(E) > 7 \/ ReduceUnique(V, E)
 PiInjective == ph = 0 \/ \A a, b \in V : a # b => Pi[a] # Pi[b]
@@ -89,6 +90,9 @@ Vector == (Emit /\ ph = 1) => PrintT(ToJson([
     res    |-> LET eo == EOrder(salt + 4) IN [i \in 1..Len(eo) |-> <<Pi[eo[i][1]], Pi[eo[i][2]]>>],
     avs    |-> LET vo == SetToSortSeq(AltV, LAMBDA a, b : LessV(a, b, salt + 6)) IN vo,
     aat    |-> LET vo == SetToSortSeq(AltV, LAMBDA a, b : LessV(a, b, salt + 6)) IN [i \in 1..Len(vo) |-> AltAttr[vo[i]]],
+    branches |-> LET vo == SelectSeq(VOrder(salt + 7), LAMBDA v : Deg(E, v) > 0)
+                     ss == IF Cardinality(V) <= 5 THEN {vo[i] : i \in 1..Len(vo)} ELSE {vo[i] : i \in 1..(IF Len(vo) < 2 THEN Len(vo) ELSE 2)}
+                 IN {[s |-> s, e |-> e, b |-> SpecBranch(V, E, s, e)] : <<s, e>> \in {se \in ss \X E : se[1] \in Ends(se[2])}},
     cands  |-> IF Cardinality(V) > 5 /\ salt # 0 THEN {} ELSE {{<<p[1], p[2], c[p]>> : p \in DOMAIN c} : c \in IdCands(V, E, Attr)},
     equivRelabelled |-> TRUE,
     equivAltered    |-> FALSE ]))
